@@ -109,8 +109,26 @@ func shapeOfBVH2[B interface {
 
 // query: kind + flattened arguments (see notes/C08.md).
 type query struct {
-	q string // ray | first | sphere | seg | rect | tri
-	a []float64
+	q   string // ray | first | sphere | seg | rect | tri
+	a   []float64
+	sig float64 // ray | first: the direction is sig·(a direction on the small grid); 0 means 1
+}
+
+// setRay fills the arguments of a ray / first query with origin o and direction sig·d.
+func (q *query) setRay(dim int, o, d V, sig float64) {
+	d = d.scale(sig)
+	q.a = append(append(q.a[:0], o[:dim]...), d[:dim]...)
+	q.sig = sig
+}
+
+// scaleScene multiplies every coordinate / radius of the query by s (the ray parameters are unchanged).
+func (q *query) scaleScene(s float64) {
+	if s == 1 {
+		return
+	}
+	for i := range q.a {
+		q.a[i] *= s
+	}
 }
 
 func (q query) v(i int) V { // i-th point of the arguments (3D layout)
